@@ -53,6 +53,13 @@ def gen(ctx):
     src_text = c13_src.generate(common.REPO)
     common.write_if_changed(common.COQ / "Gen" / "ConfigSrc.v", src_text)
     ctx.gen_info["Gen/ConfigSrc.v"] = hashlib.sha256(src_text.encode()).hexdigest()[:16]
+    # round 5: create_md_parser -> abstract parser description
+    from gen import c13_mdit
+    md_text, md_info = c13_mdit.generate(common.REPO)
+    common.write_if_changed(common.COQ / "Gen" / "MdParserSrc.v", md_text)
+    ctx.gen_info["Gen/MdParserSrc.v"] = hashlib.sha256(md_text.encode()).hexdigest()[:16]
+    ctx.gen_info["extensions_tested_in_create_md_parser"] = md_info["tested"]
+    ctx.gen_info["extensions_used_elsewhere"] = sorted({n for n, _ in md_info["others"]})
     ctx.gen_info.update({
         "sources": src_hashes(["myst_parser/config/main.py", "myst_parser/config/dc_validators.py",
                                "myst_parser/parsers/docutils_.py", "myst_parser/sphinx_ext/main.py"]),
@@ -177,9 +184,184 @@ def _plain(v):
     return False
 
 
+# ------------------------------------------------------------------ create_md_parser: real call trace
+
+def md_trace(cfg, has_linkify):
+    """Run the real create_md_parser with a recording stand-in for MarkdownIt; returns the description in the
+    driver's text format: preset | steps | options."""
+    import myst_parser.parsers.mdit as M
+
+    def show(v):
+        return V.enc_jv("config" and _Opaque()) if v is cfg else V.enc_jv(v)
+
+    class _Opaque:
+        __name__ = "config"
+
+    def opts(d):
+        return ",".join(V._enc_s(k) + "=" + (("O" + V._enc_s("config")) if v is cfg else V.enc_jv(v)) for k, v in d)
+
+    rec = {"preset": None, "steps": [], "options": []}
+
+    class Options(dict):
+        def update(self, d):
+            rec["options"] += list(d.items())
+            super().update(d)
+
+    class Linkify:
+        def set(self, d):
+            rec["steps"].append("linkify.set(" + opts(list(d.items())) + ")")
+
+    class FakeMd:
+        def __init__(self, preset, renderer_cls=None):
+            rec["preset"] = preset
+            self.options = Options()
+            self.linkify = Linkify() if has_linkify else None
+
+        def enable(self, name, ignoreInvalid=False):
+            rec["steps"].append("enable(" + V._enc_s(name) + ")")
+            return self
+
+        def disable(self, name, ignoreInvalid=False):
+            rec["steps"].append("disable(" + V.enc_jv(name) + ")")
+            return self
+
+        def use(self, plugin, *a, **k):
+            o = ([("*", tuple(a) if len(a) != 1 else a[0])] if a else []) + list(k.items())
+            if a:
+                o = [("*", getattr(cfg, "sub_delimiters"))] + list(k.items())
+            rec["steps"].append("use(" + V._enc_s(plugin.__name__) + ":" + opts(o) + ")")
+            return self
+
+    orig = M.MarkdownIt
+    M.MarkdownIt = FakeMd
+    try:
+        M.create_md_parser(cfg, None)
+    finally:
+        M.MarkdownIt = orig
+    return V._enc_s(rec["preset"]) + " | " + " ; ".join(rec["steps"]) + " | " + opts(rec["options"])
+
+
+def rand_parser_kwargs(rng):
+    kw = {}
+    exts = sorted(V.DOC_EXTENSIONS)
+    if rng.random() < 0.85:
+        kw["enable_extensions"] = rng.choice([list, tuple, set])(rng.sample(exts, rng.randint(0, 5)))
+    if rng.random() < 0.15:
+        kw["commonmark_only"] = True
+    if rng.random() < 0.15:
+        kw["gfm_only"] = True
+    if rng.random() < 0.4:
+        kw["disable_syntax"] = rng.sample(["table", "emphasis", "link", "text_join", "nonexistent"], rng.randint(0, 2))
+    for b in ("enable_checkboxes", "linkify_fuzzy_links", "dmath_allow_labels", "dmath_allow_space", "dmath_allow_digits", "dmath_double_inline"):
+        if rng.random() < 0.2:
+            kw[b] = rng.random() < 0.5
+    if rng.random() < 0.3:
+        kw["words_per_minute"] = rng.choice([1, 50, 300])
+    if rng.random() < 0.2:
+        kw["sub_delimiters"] = rng.choice([("[", "]"), ["<", ">"]])
+    return kw
+
+
+def corr_parser(ctx):
+    import copy as cp
+    from myst_parser.config.main import MdParserConfig
+    imp = import_table()
+    rng = ctx.rng
+    cases = [({"enable_extensions": [e]}, hl) for e in sorted(V.DOC_EXTENSIONS) for hl in (False, True)]
+    cases += [({}, False), ({"commonmark_only": True, "enable_extensions": ["deflist"]}, False),
+              ({"gfm_only": True, "enable_extensions": ["deflist"], "enable_checkboxes": True}, True)]
+    for _ in range(ctx.budget(300, 3000, 3000)):
+        cases.append((rand_parser_kwargs(rng), rng.random() < 0.5))
+    lines = ["\t".join(["mdparser", imp, enc_kwargs(kw), "1" if hl else "0"]) for kw, hl in cases]
+    outs = model_run_parallel(PID, lines)
+    for (kw, hl), o in zip(cases, outs):
+        ctx.corr_cases += 1
+        ctx.count("corr:mdparser")
+        try:
+            r = "ok " + md_trace(MdParserConfig(**cp.deepcopy(kw)), hl)
+        except Exception as e:
+            r = "!" + type(e).__name__
+        if kw.get("enable_extensions") or kw.get("disable_syntax"):
+            ctx.nontriv(("mdparser", repr(sorted(kw.items(), key=str)), hl))
+        if r != o:
+            if len(ctx.disagreements) < 40:
+                ctx.disagree("create_md_parser call sequence", {"kind": "parser", "kwargs": ser(kw), "has_linkify": hl}, r[:700], o[:700])
+
+
+def check_parser(ctx, case):
+    """Direct oracle on the real MarkdownIt object: every documented extension that create_md_parser handles changes
+    the active rules / options of the parser; commonmark_only / gfm_only ignore enable_extensions; two spellings of the
+    same extension set give the same parser."""
+    import copy as cp
+    from markdown_it.renderer import RendererHTML
+    from myst_parser.config.main import MdParserConfig
+    from myst_parser.parsers.mdit import create_md_parser
+
+    def observe(kw):
+        md = create_md_parser(MdParserConfig(**cp.deepcopy(kw)), RendererHTML)
+        return (md.get_active_rules(), {k: v for k, v in md.options.items() if k != "myst_config"},
+                sorted(md.block.ruler.get_all_rules()), sorted(md.inline.ruler.get_all_rules()), sorted(md.core.ruler.get_all_rules()))
+    kw = deser(case["kwargs"])
+    ok = True
+    try:
+        base = observe(kw)
+        exts = list(kw.get("enable_extensions") or [])
+        if kw.get("commonmark_only") or kw.get("gfm_only"):
+            other = observe({k: v for k, v in kw.items() if k != "enable_extensions"})
+            if other != base:
+                ctx.fail("parser:only-mode-uses-extensions", case, "commonmark_only/gfm_only parser depends on enable_extensions")
+                ok = False
+        else:
+            for sp in (tuple(reversed(exts)), set(exts), exts + exts[:1]):
+                if observe(dict(kw, enable_extensions=sp)) != base:
+                    ctx.fail("parser:spelling", case, f"parser differs for the spelling {sp!r} of the same extension set")
+                    ok = False
+    except ModuleNotFoundError:
+        pass
+    except Exception as e:
+        ctx.fail(f"exception:{type(e).__name__}:create_md_parser", case, f"create_md_parser raised {e!r}")
+        ok = False
+    return ok
+
+
+def _common_repo():
+    from lib import common
+    return common.REPO
+
+
+def check_parser_ext(ctx, case, tested=None, elsewhere=None):
+    from markdown_it.renderer import RendererHTML
+    from myst_parser.config.main import MdParserConfig
+    from myst_parser.parsers.mdit import create_md_parser
+    if tested is None:
+        from gen import c13_mdit as _M
+        _t, mi = _M.generate(_common_repo())
+        tested, elsewhere = set(mi["tested"]), {n for n, _ in mi["others"]}
+    ext = case["extension"]
+
+    def observe(exts):
+        md = create_md_parser(MdParserConfig(enable_extensions=exts), RendererHTML)
+        return (md.get_active_rules(), {k: v for k, v in md.options.items() if k != "myst_config"},
+                sorted(md.block.ruler.get_all_rules()), sorted(md.inline.ruler.get_all_rules()), sorted(md.core.ruler.get_all_rules()))
+    try:
+        changed = observe([ext]) != observe([])
+    except Exception as e:
+        ctx.fail(f"exception:{type(e).__name__}:create_md_parser", case, f"create_md_parser raised {e!r}")
+        return False
+    if not changed and ext not in elsewhere:
+        ctx.fail(f"extension-ignored:{ext}", case, f"the documented extension {ext!r} is accepted but changes neither the parser "
+                 "nor is it read anywhere else in the package")
+        return False
+    if ext in tested and not changed:
+        ctx.fail(f"extension-branch-without-effect:{ext}", case, f"create_md_parser tests {ext!r} but the parser is the same with and without it")
+        return False
+    return True
+
+
 def corr(ctx):
     if not ctx.have_runner:
         return
+    corr_parser(ctx)
     import copy as cp
     import dataclasses as dc
     from myst_parser.config.main import MdParserConfig, merge_file_level
@@ -914,6 +1096,10 @@ def check_docutils_settings_untouched(ctx, case):
 
 def check_case(ctx, case):
     k = case["kind"]
+    if k == "parser":
+        return check_parser(ctx, case)
+    if k == "parser-ext":
+        return check_parser_ext(ctx, case)
     if k == "leak":
         return check_leak(ctx, case)
     if k == "docutils-settings":
@@ -1003,6 +1189,20 @@ def search(ctx):
         if i < 2:
             ctx.sample(case)
         check_doc(ctx, case)
+    # every documented extension is either handled by create_md_parser (then it changes the real parser) or
+    # read elsewhere in the package (regenerated lists)
+    from gen import c13_mdit as _M
+    _txt, _mi = _M.generate(_common_repo())
+    handled_elsewhere = {n for n, _ in _mi["others"]}
+    for ext in sorted(V.DOC_EXTENSIONS):
+        ctx.search_cases += 1
+        ctx.count("search:parser-ext")
+        check_parser_ext(ctx, {"kind": "parser-ext", "extension": ext}, set(_mi["tested"]), handled_elsewhere)
+    # parser construction: spellings, the "only" modes
+    for _ in range(ctx.budget(60, 600, 600)):
+        ctx.search_cases += 1
+        ctx.count("search:parser")
+        check_parser(ctx, {"kind": "parser", "kwargs": ser(rand_parser_kwargs(rng))})
     # run-time writers of the configuration (figure-md ...) in documents with and without front matter
     from gen import c13_config as _G
     from lib import common as _common
@@ -1051,9 +1251,12 @@ LEVEL_TEXT = ("Proof (Coq): for every documented type the validator tree built f
               "for every validated global config, field and value, front matter myst:{f:v} yields exactly config.copy(f=v) "
               "(dict options merged over the global value), an invalid value leaves the config unchanged with exactly one "
               "topmatter warning, the global config is never written; a docutils option string and a Sphinx conf value give the "
-              "configuration of the constructor on the decoded value. Tie: regenerated table + differential correspondence of the "
+              "configuration of the constructor on the decoded value; create_md_parser (REGENERATED as config -> abstract parser "
+              "description) handles every extension name the validator accepts and tests no other, gives the same parser for "
+              "every spelling of the same values, and in commonmark_only / gfm_only mode ignores the extensions exactly as coded. Tie: regenerated table + differential correspondence of the "
               "extracted model with MdParserConfig / copy / merge_file_level / the real docutils OptionParser / "
-              "sphinx_ext.create_myst_config on every field x values of every JSON type.")
+              "sphinx_ext.create_myst_config on every field x values of every JSON type; the real call sequence of create_md_parser "
+              "(recording stand-in for MarkdownIt) vs the regenerated description, and rule/option observations on the real MarkdownIt.")
 LEVEL_NOTE = ("Trusted: Coq kernel; the hand transcription of dc_validators.py, the check_* validators, __post_init__/copy, "
               "merge_file_level and _attr_to_optparse_option in coq/Cfg/Cfg.v (tied by correspondence, not proved); the documented "
               "types in coq/Cfg/CfgSpec.v (annotation -> type, plus the documented refinements of the custom-validated options); "
